@@ -57,5 +57,6 @@ import LexVerif.Props.C01SlowMain
 import LexVerif.Props.C01SlowDomain
 import LexVerif.Props.C01Number
 import LexVerif.Props.C01Trunc
+import LexVerif.Props.C01Compact
 import LexVerif.Props.C01Final
 import LexVerif.Props.C12Sep
